@@ -458,6 +458,24 @@
        (=> (not (= (select r (KNewH id)) bnil)) (not (= (select r (KNewQ (hOfVal (select r (KNewH id))) id)) bnil)))))
 (define-fun ptrAllOK ((r (Array Key Bytes))) Bool (forall ((id Bytes)) (! (ptrOK r id) :pattern ((select r (KExpH id))) :pattern ((select r (KNewH id))))))
 (define-fun schedInv ((r (Array Key Bytes))) Bool (and (ctxAllOK r) (expAllOK r) (newAllOK r) (ptrAllOK r)))
+
+; ---- the state right after genesis import (A0, base case of the inductions): no record of the families that only the
+; running module writes (requests, responses, pending markers, both queues and their pointers, earnings, volumes)
+(define-fun runtimeKey ((k Key)) Bool (or (is-KReq k) (is-KResp k) (is-KActID k) (is-KActB k) (is-KExpQ k) (is-KExpH k) (is-KNewQ k) (is-KNewH k)
+  (is-KEarned k) (is-KOwnerEarned k) (is-KVol k)))
+(define-fun noRuntimeRecords ((r (Array Key Bytes))) Bool (forall ((k Key)) (! (=> (runtimeKey k) (= (select r k) bnil)) :pattern ((select r k)))))
+(define-fun emptyStore ((r (Array Key Bytes))) Bool (forall ((k Key)) (! (= (select r k) bnil) :pattern ((select r k)))))
+; the static part of a well-formed context record (what ctxOK requires besides the scheduling facts)
+(define-fun ctxStaticOK ((c RequestContext)) Bool
+  (and (rng_RequestContext c) (<= (slen (RequestContext_Providers c)) 32767) (ordinary (RequestContext_Consumer c)) (> (RequestContext_Timeout c) 0)
+       (<= (RequestContext_Timeout c) (Params_MaxRequestTimeout params))
+       (=> (RequestContext_Repeated c) (>= (RequestContext_RepeatedFrequency c) (RequestContext_Timeout c)))))
+; finite sums: the sum over no terms is zero (the three aggregates over a view without records)
+(declare-const noRecords (Array Key Bytes))
+(assert (forall ((k Key)) (! (= (select noRecords k) bnil) :pattern ((select noRecords k)))))
+(assert (forall ((d Str)) (! (= (sumPendV noRecords d) 0) :pattern ((sumPendV noRecords d)))))
+(assert (forall ((d Str)) (! (= (sumEarnV noRecords d) 0) :pattern ((sumEarnV noRecords d)))))
+(assert (forall ((d Str)) (! (= (sumDepV noRecords d) 0) :pattern ((sumDepV noRecords d)))))
 ; A14 as an axiom on stored contexts
 (assert (forall ((r (Array Key Bytes)) (id Bytes)) (! (=> (ctxFound r id) (< (RequestContext_BatchCounter (ctxOf r id)) 9223372036854775808)) :pattern ((RequestContext_BatchCounter (dec_RequestContext (select r (KCtx id))))))))
 ; ---- I_cad (C10): ghostMaxTot[id] is an arbitrary (universally quantified) record of "the largest total that was ever in force"
